@@ -49,6 +49,9 @@ Definition einfo (e : expr) : info :=
   | ELit i _ | EGroup i _ | EPath i _ | EArray i _ | EOther i _ => i
   end.
 
+Fixpoint strip_groups (e : expr) : expr :=
+  match e with EGroup _ g => strip_groups g | _ => e end.
+
 (** [darling::ast::NestedMeta]; every constructor except [NLit] is a [syn::Meta].
     [NList]: a list whose tokens parse as nested items ([ti]: the delimited tokens' own range and
     text); [NBadList]: a list whose tokens [NestedMeta::parse_meta_list] rejects, with syn's
